@@ -65,10 +65,14 @@ type Recorder struct {
 	Known       map[string]int `json:"known"`
 	Samples     []any          `json:"samples"`
 	Notes       []string       `json:"notes"`
+	Capped      bool           `json:"distinct_count_capped"`
 	fps         map[uint64]struct{}
 	Fingerprints []uint64      `json:"fingerprints"`
 	maxSamples  int
 }
+
+// maxFingerprints bounds the memory of the distinct-case bookkeeping per process.
+const maxFingerprints = 400000
 
 var (
 	regMu    sync.Mutex
@@ -144,6 +148,11 @@ func (r *Recorder) NontrivialCase(fp uint64, sample func() any) {
 	defer r.mu.Unlock()
 	r.Nontrivial++
 	if _, ok := r.fps[fp]; ok {
+		return
+	}
+	if len(r.fps) >= maxFingerprints {
+		// beyond the cap distinct cases are no longer recorded: the reported count is a lower bound
+		r.Capped = true
 		return
 	}
 	r.fps[fp] = struct{}{}
